@@ -598,7 +598,8 @@ class Discharger:
             root = unwrap_ap[0]
             if root[0] != "call" or unwrap_ap[1]:
                 return None
-            if not root[1].endswith(("Vec::<T, A>::pop", "<impl [T]>::first", "<impl [T]>::last", "Iterator>::next", "VecDeque::<T, A>::pop_front")):
+            if not root[1].endswith(("Vec::<T, A>::pop", "<impl [T]>::first", "<impl [T]>::last", "<impl [T]>::split_first", "<impl [T]>::split_last",
+                                     "Iterator>::next", "VecDeque::<T, A>::pop_front")):
                 return None
             ct = fn.blocks[root[3]]["term"]
             if root[1].endswith("Iterator>::next"):
